@@ -16,6 +16,14 @@ CLAIMS = {
    text="Kernel-checked theorems over the Lean model of btdmp.cpp: flag invariant over all histories, exactly one frame per period made of the two oldest words (zeros for missing), empty interrupt iff a pop empties the queue, silent flush, a reference-FIFO conservation theorem (no loss/duplication/reordering) over arbitrary operation lists, Skip(k) = k Ticks (state, frames, interrupts) for every k up to the reported horizon under 1 <= period and timer < period, lifted to arbitrary histories. Tied to src/btdmp.cpp by exhaustive small-period scripts and random histories on the real class, incl. Skip vs Ticks evaluated on the real code.",
    note=NOTE_COMMON + " Excluded points (timer >= period after lowering the period through SetTransmitPeriod, which only the unit test calls; period 0; 64-bit wrap of timer+ticks) are proved as witnesses and reported in evidence.",
    tech="Lean 4 theorems (invariants and refinement to a reference FIFO by induction over histories) + correspondence run", ref="§7 C16"),
+ "C14": dict(
+   text="Kernel-checked refinement of the Lean model of apbp.cpp to an abstract mailbox/semaphore specification (every operation returns the spec's output and events and commutes with the abstraction; lifted over arbitrary operation lists and over the pair of instances the facade wires up), with the corollaries the property names: send sets ready and interrupts iff enabled, receive returns the last value and clears, peek is pure, semaphore bits accumulate/clear, signal flag = (sem & ~mask) != 0 after every history, interrupt on every rise and never while the flag stays zero, and the DSP-side status words 0x0D6/0x0D8 agree with the host API. Tied to src/apbp.cpp, src/mmio.cpp and the Teakra facade by random histories on a stand-alone Apbp and on a real Teakra instance (host API + MMIO 0x0C0-0x0D8 + ICU pending bit 14).",
+   note=NOTE_COMMON + " Mutexes/concurrency are not part of this property's model (C19); handlers are counting callbacks. The upstream MaskSemaphore defect is kept as a proved counterexample (fixed in /repo, see known_findings.json).",
+   tech="Lean 4 refinement proof (abstraction map + induction over histories) + correspondence run", ref="§7 C14"),
+ "C02": dict(
+   text="The decode table is regenerated from decoder.h/operand.h/matcher.h on every run and the theorems are re-checked over the regenerated table: at most one pattern matches any 16-bit word (kernel-checked pairwise cube-disjointness certificate + soundness lemma), operand masks / unused bits / fixed bits are pairwise disjoint, the mask is the complement of the operand union, expanded <-> an operand at position 16, unused bits change neither the match nor any extracted operand nor the decoded entry. The translated table is tied to the real template machinery exhaustively: all 65536 first words x several second words through Decode<RecordingVisitor> (handler, signature, raw operand values, expansion flag), Decode<Interpreter> uniqueness assertion and Disassembler::NeedExpansion. That the fetch loop consumes exactly the words the table says is covered by the instruction-level correspondence of C01 (pc after one step).",
+   note=NOTE_COMMON + " Here the model table is produced by tools/translate_decode.py (fails loudly on unknown syntax); Decode<Disassembler>/Decode<TestGenerator> are file-local and reached only through their public APIs.",
+   tech="translator-regenerated Lean table + kernel-checked certificate (decide +kernel) + exhaustive correspondence", ref="§7 C02"),
 }
 
 PENDING = "not claimed yet: model and theorems for this property are still being built (DESIGN.md §10 staging); no check is registered until it is green on the unchanged tree"
